@@ -196,7 +196,7 @@ func checkC03(p *Program, r *Result) {
 			if mi, ok := arg0.(*ssa.MakeInterface); ok {
 				arg0 = mi.X
 			}
-			for _, o := range oc.origins(arg0) {
+			for _, o := range oc.originsUp(arg0) {
 				if o == p.roles().queueOrigin() {
 					onQueue = true
 				}
@@ -309,6 +309,42 @@ func checkC03(p *Program, r *Result) {
 				}
 			}
 		}
+		// the window may be handed in by the caller (sort helper taking the pending window as a parameter): the window
+		// is then taken at the call site, and "between taking and sorting" is between that and the call
+		sortAt := ssa.Instruction(ci)
+		if winInstr == nil {
+			var prm *ssa.Parameter
+			switch a := arg.(type) {
+			case *ssa.Parameter:
+				prm = a
+			case *ssa.UnOp:
+				if al, ok := a.X.(*ssa.Alloc); ok {
+					for _, ref := range *al.Referrers() {
+						if st, ok := ref.(*ssa.Store); ok && st.Addr == ssa.Value(al) {
+							if q, ok := st.Val.(*ssa.Parameter); ok {
+								prm = q
+							}
+						}
+					}
+				}
+			}
+			if prm != nil {
+				idx := -1
+				for i, q := range prm.Parent().Params {
+					if q == prm {
+						idx = i
+					}
+				}
+				if sites := p.staticCallers(prm.Parent()); len(sites) == 1 && idx >= 0 {
+					a := sites[0].Common().Args[idx]
+					if sl, ok := a.(*ssa.Slice); ok {
+						winInstr, sortAt, lc = sl, sites[0], sites[0].Parent()
+					} else if c, ok := a.(*ssa.Call); ok && p.roles().pendingWindow(c, 0) {
+						winInstr, sortAt, lc = c, sites[0], sites[0].Parent()
+					}
+				}
+			}
+		}
 		if winInstr == nil {
 			continue
 		}
@@ -329,7 +365,7 @@ func checkC03(p *Program, r *Result) {
 			}
 			for _, st := range muts {
 				afterWin := st.Block() == win.Block() && blockIndexOf(st) > blockIndexOf(win) || st.Block() != win.Block() && reachableFromSuccs(win.Block())[st.Block()]
-				beforeSort := st.Block() == ci.Block() && blockIndexOf(st) < blockIndexOf(ci) || st.Block() != ci.Block() && reachableFromSuccs(st.Block())[ci.Block()]
+				beforeSort := st.Block() == sortAt.Block() && blockIndexOf(st) < blockIndexOf(sortAt) || st.Block() != sortAt.Block() && reachableFromSuccs(st.Block())[sortAt.Block()]
 				if afterWin && beforeSort && instrDominates(win, st) {
 					stale = "it." + f + " is modified at " + p.pos(st.Pos())
 				}
@@ -357,13 +393,13 @@ func checkC03(p *Program, r *Result) {
 	for _, ci := range sortSites {
 		args := ci.Common().Args
 		onChunks := false
-		for _, o := range oc.origins(args[0]) {
+		for _, o := range oc.originsUp(args[0]) {
 			if o == "field:indexedMessageIterator.chunkIndexes" {
 				onChunks = true
 			}
 		}
 		if mi, ok := args[0].(*ssa.MakeInterface); ok {
-			for _, o := range oc.origins(mi.X) {
+			for _, o := range oc.originsUp(mi.X) {
 				if o == "field:indexedMessageIterator.chunkIndexes" {
 					onChunks = true
 				}
